@@ -22,6 +22,7 @@ type evidence struct {
 	solverS      float64
 	maxQuery     float64
 	paths        int
+	syntactic    int
 	nontrivial   int
 	jobs         []map[string]interface{}
 	samples      []interface{}
@@ -67,6 +68,7 @@ func (e *evidence) addJob(r *JobResult) {
 	if s := r.Seq; s != nil {
 		e.paths += s.Paths
 		e.nontrivial += s.Nontrivial
+		e.syntactic += s.Syntactic
 		j["paths"] = s.Paths
 		j["infeasible_paths"] = s.Infeasible
 		j["violations"] = len(s.Violations)
@@ -153,9 +155,11 @@ func topN(m map[string]int, n int) []string {
 
 func (e *evidence) write(path string) {
 	cov := map[string]interface{}{
-		"evaluations":         e.queries,
+		"evaluations":         e.queries + e.syntactic,
 		"distinct_nontrivial": e.nontrivial,
-		"rule":                "evaluations = SMT queries discharged (branch feasibility + assertion + witness queries); distinct_nontrivial = distinct (harness, parameters, path/configuration) whose assertion queries mention at least one symbolic value",
+		"rule":                "evaluations = proof obligations decided = SMT queries discharged (branch feasibility, assertions, witnesses) + assertions whose condition the hash-consing term normaliser reduced to true (both sides the identical term over the symbolic inputs; counted separately as decided_by_term_identity); distinct_nontrivial = distinct (harness, parameters, path/configuration) that reached an assertion with at least one symbolic input in scope",
+		"decided_by_term_identity": e.syntactic,
+		"decided_by_solver":   e.queries,
 		"explanation":         e.spec.Explanation,
 		"samples":             e.samples,
 		"paths_or_configurations": e.paths,
